@@ -163,10 +163,19 @@ impl Prop for Foreign {
             adaptor_routes("foreign/shx", || open_mem(&enc.shp, Some(&enc.shx[..])), &expect, cmp_read).map_err(|(k, msg)| Fail::new(if k == "shape-differs" { "decode-differs" } else { &k }, msg))?;
         }
         // the same file read from disk by path (BufReader<File>), for one model in eight
-        if (n + m.trailing.len() + m.ty.code() as usize) % 8 == 0 || n >= 1000 {
+        if (n + m.trailing.len() + m.ty.code() as usize) % 8 == 0 || n >= 1000 || (!m.trailing.is_empty() && (n + m.trailing.len()) % 3 == 0) {
             ctx.class("from_path-route");
             let p = crate::common::scratch_dir().join("c03.shp");
             std::fs::write(&p, &enc.shp).map_err(|e| Fail::new("disk-io", e.to_string()))?;
+            // first the .shp alone (no index next to it): sequential reading must stop at the DECLARED length
+            let _ = std::fs::remove_file(p.with_extension("shx"));
+            let alone = shapefile::read_shapes(&p).map_err(|e| Fail::new("valid-record-rejected", format!("read_shapes(path, no .shx next to it; {} bytes after the declared length): {}", m.trailing.len(), err_str(&e))))?;
+            ensure!(alone.len() == n, "count", "read_shapes(path, no .shx) returns {} of {} ({} bytes after the declared length)", alone.len(), n, m.trailing.len());
+            for (i, s) in alone.iter().enumerate() {
+                if let Err(e) = cmp_read(&m.recs[i].geom, &view_shape(s)) {
+                    fail!("decode-differs", "read_shapes(path, no .shx) record {}: {}", i, e);
+                }
+            }
             std::fs::write(p.with_extension("shx"), &enc.shx).map_err(|e| Fail::new("disk-io", e.to_string()))?;
             let all = shapefile::read_shapes(&p).map_err(|e| Fail::new("valid-record-rejected", format!("read_shapes(path): {}", err_str(&e))))?;
             ensure!(all.len() == n, "count", "read_shapes(path) returns {} of {}", all.len(), n);
